@@ -28,6 +28,10 @@ type Case struct {
 	// Preload: the provider option `preload: true` (docs/eng/providers.md, "HTTP Ammo preloaded": "the provider will load the ammo file into memory") - the file is
 	// read into memory once and replayed from there; what is delivered is the same file content, pass after pass
 	Preload bool `json:"preload,omitempty"`
+	// MaxAmmoSize: the provider option `maxammosize` ("Maximum number of byte in jsonline ammo. Default is
+	// bufio.MaxScanTokenSize"), 0 = not set. Only TestDecodeLongLines sets it, and only to values above everything in
+	// the file: a limit that nothing in the file reaches rules nothing out.
+	MaxAmmoSize int `json:"maxammosize,omitempty"`
 }
 
 func genCase(t *rapid.T) Case {
@@ -57,6 +61,9 @@ func check(c Case, o *vf.Obs) error {
 	}
 	if c.Preload {
 		conf["preload"] = true
+	}
+	if c.MaxAmmoSize > 0 {
+		conf["maxammosize"] = c.MaxAmmoSize
 	}
 	if hs := f.ConfigHeaderLines(); len(hs) > 0 {
 		// docs/eng/providers.md: "You can define common headers using special config option `headers`. Headers in ammo
